@@ -1096,7 +1096,9 @@ impl GlobalInferenceCtx<'_> {
                     let new_ty = match &self.bodies[expr] {
                         Expr::IntLiteral(num) => match *previous_ty {
                             Ty::IInt(0) if *num > i32::MAX as u64 => Ty::IInt(64).into(),
-                            Ty::UInt(0) if *num > u32::MAX as u64 => Ty::UInt(64).into(),
+                            // a weak int that stays weak is compiled as an i32, so anything above
+                            // i32::MAX (not just above u32::MAX) needs the wider type to keep its value
+                            Ty::UInt(0) if *num > i32::MAX as u64 => Ty::UInt(64).into(),
                             _ => continue,
                         },
                         Expr::Ref {
